@@ -219,11 +219,19 @@ def check_typestate(ctx, P):
             tb = tb or TermBuilder(f, P)
             dg = tb.joperand(c["args"][1])
             may_yes = dg[0] == "agg" and dg[2] == "Yes"
+            must_yes = may_yes
             if dg[0] != "agg":
                 # the argument is a variable: `Yes` on some path class unless every class fixes it to `No`
                 gg = GuardAnalysis(f, P)
                 vs_all = [fs.get(("discr", strip_refs(dg))) for fs in gg.at(b)]
                 may_yes = not vs_all or any(v is None or v != ("in", frozenset(["No"])) for v in vs_all)
+                must_yes = bool(vs_all) and all(v == ("in", frozenset(["Yes"])) for v in vs_all)
+            if may_yes and not must_yes:
+                # GAP maintenance made conditional: the end of the token use must always request it (otherwise a busy station never
+                # polls its GAP and new stations are never admitted)
+                ctx.ob("c.one-poll", "do-gap-unconditional|%s" % f.name, False,
+                       "the pass at the end of the token use requests GAP maintenance only on some paths (DoGap computed from a condition): "
+                       "the GAP would not be polled on the others", f.loc(b))
             if may_yes:
                 nyes += 1
                 S = ip.facts_at(f.name, b)
